@@ -39,12 +39,23 @@ fn clock() -> std::sync::MutexGuard<'static, Clock> {
   }
 }
 
-/// one virtual unit = one second
+/// length of one virtual unit in nanoseconds: one second by default; the
+/// replayer also runs timed behaviours with a unit of one nanosecond (no
+/// `_at` operators there: `Instant::now()` is real), so that code that
+/// truncates durations to a coarser grain is seen
+static UNIT_NS: std::sync::atomic::AtomicU64 = std::sync::atomic::AtomicU64::new(1_000_000_000);
+pub fn set_unit_ns(n: u64) {
+  UNIT_NS.store(n.max(1), std::sync::atomic::Ordering::SeqCst);
+}
+fn unit_ns() -> u128 {
+  UNIT_NS.load(std::sync::atomic::Ordering::SeqCst) as u128
+}
 pub fn units(d: Duration) -> i64 {
-  ((d.as_millis() + 500) / 1000) as i64
+  let u = unit_ns();
+  ((d.as_nanos() + u / 2) / u) as i64
 }
 pub fn dur(u: i64) -> Duration {
-  Duration::from_secs(u.max(0) as u64)
+  Duration::from_nanos((u.max(0) as u128 * unit_ns()) as u64)
 }
 
 struct VTimer(usize);
